@@ -351,6 +351,9 @@ COMMON = {
     'global:_Py_NotImplementedStruct': py_not_implemented,
     'global:FMT_STR': lambda ex, st, n: ArrV([StrV('l'), StrV('d'),
                                               StrV('Zd')]),
+    'global:err_mtx_list2matrix': lambda ex, st, n: ArrV([
+        StrV('not an integer list'), StrV('not a floating point list'),
+        StrV('not a complex floating point list')]),
     'PyErr_BadInternalCall': lambda ex, st, n, a: (
         setattr(st, 'exc', 'PyExc_SystemError') or Opaque('void')),
     '_PyErr_BadInternalCall': lambda ex, st, n, a: (
@@ -1067,6 +1070,107 @@ FUNCS = {
                                'externs': COMMON},
     'dense_concat': {'init': None, 'post': None, 'externs': COMMON},
 }
+
+# ------------------------------------------------ constructor from a sequence
+def seq_size(ex, st, n, args):
+    """PySequence_Size(x): the length (>= 0) or -1 with an exception"""
+    p = ex.ev(args[0], st)
+    if not isinstance(p, PtrV) or p.obj is None:
+        raise Unsupported('PySequence_Size of %r' % (p,))
+    ln = p.obj.extra.setdefault('seqlen', z3.Int('len(%s)' % p.obj.name))
+    ex.axioms.append(ln >= -1)
+    return IntV(ln, 'long')
+
+
+def seq_fast(ex, st, n, args):
+    """PySequence_Fast(x, msg): NULL (TypeError) or a list/tuple with the
+    items of x (here: x itself as the item container)"""
+    if st.pure:
+        raise Impure()
+    p = ex.ev(args[0], st)
+    fails = det_bool(st, n, 'PySequence_Fast_fails')
+    d = ex.decide(st, fails)
+    if d is None:
+        raise NeedFork(fails)
+    if d:
+        st.exc = 'PyExc_TypeError'
+        return NULL
+    ln = p.obj.extra.setdefault('seqlen', z3.Int('len(%s)' % p.obj.name))
+    st.pc.append(ln >= 0)
+    return PtrV(None, 0, 'PyObject', obj=p.obj)
+
+
+def seq_fast_get_item(ex, st, n, args):
+    """PySequence_Fast_GET_ITEM(seq, i): requires 0 <= i < len; the item is
+    some object"""
+    p = ex.ev(args[0], st)
+    i = toint(ex.ev(args[1], st)).t
+    ln = p.obj.extra.setdefault('seqlen', z3.Int('len(%s)' % p.obj.name))
+    ex.oblige(st, 'deref', z3.And(i >= 0, i < ln), n,
+              text='PySequence_Fast_GET_ITEM index inside the sequence')
+    key = ('seqitem', p.obj.name, n.get('line'), (n.get('off') or (0, 0))[0])
+    cnt = st.ghost.get(key, 0)
+    st.ghost[key] = cnt + 1
+    it = ex.objs.get('item@%s.%s#%d' % (key[2], key[3], cnt))
+    if it is None:
+        it = ex.new_obj('item@%s.%s#%d' % (key[2], key[3], cnt))
+    return PtrV(None, 0, 'PyObject', obj=it)
+
+
+def init_from_sequence(ex, st, params):
+    o = ex.new_obj('x')
+    st.vars[params[0]['id']] = PtrV(None, 0, 'PyObject', obj=o)
+    idv = ex.fresh_int('id', 'int')
+    ex.axioms.append(z3.And(idv.t >= -1, idv.t <= 2))
+    ex.trusted.add('precondition of Matrix_NewFromSequence: -1 <= id <= 2 '
+                   '(every caller passes a typecode id or -1)')
+    st.vars[params[1]['id']] = idv
+
+
+def post_from_sequence(ex, finished, extra_obs):
+    """Matrix_NewFromSequence(x, id): NULL with an exception, or a len(x) by
+    1 matrix; its typecode is id when id >= 0 (also for an empty sequence:
+    pickling and copying rebuild matrices through this function)"""
+    ob = mk_ob(ex, extra_obs)
+    x = ex.objs['x']
+    ln = x.extra.get('seqlen')
+    idv = z3.Int('id')
+    nok = 0
+    for st, kind, val in finished:
+        pc = st.path()
+        if is_error(val):
+            exc = st.exc
+            if exc is None:
+                for cond, name in st.ghost.get('exc_if', []):
+                    if ex.check(pc, [z3.Not(cond)]) == z3.unsat:
+                        exc = name
+            if exc is None and st.ghost.get('maybe_exc') is not None:
+                exc = 'PyExc_MemoryError'
+            ob('reject-exception', pc, z3.BoolVal(exc is not None),
+               'a NULL return has an exception set')
+            continue
+        if not isinstance(val, PtrV) or val.obj is None:
+            continue
+        if val.null is not None:
+            pc = pc + [z3.Not(val.null)]
+        nok += 1
+        r = val.obj
+        goal = z3.And(r.ismat, r.ncols == 1, z3.Implies(idv >= 0,
+                                                      r.id == idv))
+        if ln is not None:
+            goal = z3.And(goal, r.nrows == ln)
+        ob('constructor-postcondition', pc, goal,
+           'Matrix_NewFromSequence(x, id) returns a len(x) by 1 matrix of '
+           'typecode id (for id >= 0)')
+    ob('covered', [], z3.BoolVal(nok > 0), 'a success path exists')
+    return {'success_paths': nok}
+
+
+FUNCS['Matrix_NewFromSequence'] = {
+    'init': init_from_sequence, 'post': post_from_sequence,
+    'externs': dict(COMMON, **{
+        'PySequence_Size': seq_size, 'PySequence_Fast': seq_fast,
+        'PySequence_Fast_GET_ITEM': seq_fast_get_item})}
 
 FUNCS['matrix_subscr']['externs'] = dict(COMMON, **{
     'create_indexlist': create_indexlist, 'write_num[]': write_num_gather})
